@@ -166,6 +166,11 @@ class RoWorld:
             v = m.dvar(2)
             m.st(v >= 0, v.sum() <= self.w)
             self.extra += 1
+        elif o[0] == "cvx":
+            # scaled convex atoms against purely numeric (array) bounds: re-formulating must not rescale them again
+            m.st(2 * rsome.exp(self.x) <= np.array([5.0, 4.0]), 3 * abs(self.x - 1) <= np.array([6.0, 9.0]),
+                 0.5 * rsome.square(self.x) <= np.array([8.0, 2.0]), 4 * rsome.norm(self.x, 2) <= 12.0,
+                 0.25 * rsome.log(self.x + 9) >= np.array([0.25, 0.5]))
 
     def final(self):
         return self.m.do_math()
@@ -195,7 +200,7 @@ def replay_fresh(history):
             f.op(o)
             if o[1] in final_set:
                 f.op(("forall", o[1], final_set[o[1]]))
-        elif o[0] in ("st", "minmax", "dvar"):
+        elif o[0] in ("st", "minmax", "dvar", "cvx"):
             f.op(o)
     return f
 
@@ -241,7 +246,7 @@ def ro_histories(tier, seed):
         for p in sample:
             fixed.append(list(p))
     # ... with formulations / solves / further declarations inserted in between
-    inter = [("do_math",), ("dual",), ("solve",), ("dvar",), ("forall", "A", "pnorm"), ("forall", "A", "box"), ("forall", "B", "ball")]
+    inter = [("do_math",), ("dual",), ("solve",), ("dvar",), ("cvx",), ("forall", "A", "pnorm"), ("forall", "A", "box"), ("forall", "B", "ball")]
     for h in list(fixed):
         for _ in range(2 if tier == "quick" else 3):
             hh = list(h)
@@ -257,6 +262,9 @@ def ro_histories(tier, seed):
     fixed.append([("create", "A"), ("forall", "A", "pnorm"), ("create", "B"), ("forall", "B", "box"), ("minmax", "box"), ("st", "A"), ("st", "B")])
     fixed.append([("create", "A"), ("forall", "A", "box"), ("minmax", "pnorm"), ("create", "B"), ("st", "A"), ("st", "B"), ("solve",), ("dvar",), ("solve",)])
     fixed.append([("minmax", "ball"), ("create", "A"), ("st", "A"), ("do_math",), ("dual",), ("create", "B"), ("forall", "B", "kl"), ("st", "B"), ("dual",)])
+    fixed.append([("minmax", "box"), ("cvx",), ("do_math",), ("create", "A"), ("forall", "A", "ball"), ("st", "A"), ("solve",), ("dvar",), ("do_math",)])
+    fixed.append([("cvx",), ("minmax", "box"), ("solve",), ("solve",), ("create", "B"), ("st", "B"), ("dual",), ("do_math",)])
+    fixed.append([("create", "A"), ("minmax", "ball"), ("st", "A"), ("cvx",), ("dual",), ("dvar",), ("dual",), ("solve",)])
     uniq = []
     seen = set()
     for h in fixed:
@@ -556,6 +564,14 @@ def dro_world(steps):
             w.adapt(z[0])
         elif s == "obj":
             m.minsup(rsome.E(w + (x * z).sum()), fs)
+        elif s == "probA":
+            fs.probset(m.p == 0.5)
+        elif s == "probB":
+            fs.probset(m.p <= 0.75, m.p >= 0.125)
+        elif s == "suppB":
+            fs.suppset(z <= 2, z >= -0.5)               # re-declaring the support of all scenarios: the last declaration stands
+        elif s == "supp1":
+            fs[1].suppset(z <= 0.5, z >= -3)
         elif s == "k1":
             m.st(x >= z - 1)
         elif s == "k2":
@@ -589,6 +605,13 @@ DRO_HISTORIES = [
     (["adapt", "obj", "k1", "solve", "late-var"], ["adapt", "obj", "k1", "late-var"]),
     (["obj", "k1", "do_math", "late-var", "k3", "dual"], ["obj", "k1", "late-var", "k3"]),
     (["obj", "k2", "solve", "k1", "late-var", "solve"], ["obj", "k2", "k1", "late-var"]),
+    # re-declared parts of the ambiguity set: what was declared LAST is the set, whatever was declared before
+    (["probA", "probB", "obj", "k1", "k2"], ["probB", "obj", "k1", "k2"]),
+    (["probB", "probA", "obj", "k1"], ["probA", "obj", "k1"]),
+    (["probA", "obj", "k1", "do_math", "probB", "k2"], ["probB", "obj", "k1", "k2"]),
+    (["suppB", "obj", "k1", "k2"], ["suppB", "obj", "k1", "k2"]),
+    (["supp1", "suppB", "obj", "k1"], ["suppB", "obj", "k1"]),
+    (["suppB", "supp1", "probA", "obj", "k1", "solve", "probB", "k3"], ["suppB", "supp1", "probB", "obj", "k1", "k3"]),
 ]
 
 
